@@ -6,6 +6,8 @@ use crate::ast::*;
 use crate::tape::Tape;
 
 pub struct IoGen<'t, 'a> {
+    /// a `cat`-style program over a long input (more than the 8 KiB a buffered reader holds) was chosen
+    pub cat: bool,
     pub t: &'t mut Tape<'a>,
     vars: Vec<Name>,
     func: Name,
@@ -17,7 +19,7 @@ pub struct IoGen<'t, 'a> {
 impl<'t, 'a> IoGen<'t, 'a> {
     pub fn new(t: &'t mut Tape<'a>) -> Self {
         let n = names::distinct(t, 7);
-        IoGen { t, vars: n[0..4].to_vec(), func: n[4].clone(), fparam: n[5].clone(), marker: 0, io_budget: 20 }
+        IoGen { cat: false, t, vars: n[0..4].to_vec(), func: n[4].clone(), fparam: n[5].clone(), marker: 0, io_budget: 20 }
     }
 
     fn v(&mut self) -> Name {
@@ -113,6 +115,21 @@ impl<'t, 'a> IoGen<'t, 'a> {
     }
 
     pub fn program(&mut self) -> Program {
+        if self.t.chance(1, 40) {
+            // echo the input line by line until a blank line / the end of input: many listens, long inputs
+            self.cat = true;
+            let x = self.vars[0].clone();
+            let n = self.vars[1].clone();
+            return Program::single(vec![
+                put(num(0.0), &n),
+                Stmt::Input { dest: Some(Lhs::Ident(Ident::Name(x.clone()))) },
+                Stmt::Until {
+                    cond: bin(BinOp::Eq, var(&x), strlit("")),
+                    body: vec![Stmt::Inc { dest: Ident::Name(n.clone()), amount: 1 }, say(var(&x)), Stmt::Input { dest: Some(Lhs::Ident(Ident::Name(x.clone()))) }],
+                },
+                say(var(&n)),
+            ]);
+        }
         let mut s: Vec<Stmt> = vec![];
         for (k, v) in self.vars.clone().iter().enumerate().take(3) {
             s.push(put(strlit(&format!("init{}", k)), v));
@@ -135,6 +152,25 @@ impl<'t, 'a> IoGen<'t, 'a> {
     }
 
     pub fn stdin(&mut self) -> String {
+        if self.cat {
+            // 9-40 KiB in lines of 20-120 characters, mostly multi-byte, so that characters straddle every buffer boundary
+            let lines = 300 + self.t.pick(300);
+            let salt = self.t.pick(7);
+            let pool = ["日本語のテキスト", "ünï çödé ", "Здравствуйте ", "🎸 rock ", "plain ascii ", "€", "x"];
+            let mut s = String::new();
+            for i in 0..lines {
+                // (mostly a function of the line number: the tape is too short to drive every line)
+                let k = 1 + (i * 7 + salt) % 8;
+                for j in 0..k {
+                    s.push_str(pool[(i + j * 3 + salt) % pool.len()]);
+                }
+                s.push('\n');
+            }
+            if self.t.chance(1, 2) {
+                s.push_str("last line without terminator");
+            }
+            return s;
+        }
         let n = self.t.weighted(&[10, 15, 20, 20, 15, 10, 10]);
         let mut s = String::new();
         for i in 0..n {
